@@ -777,6 +777,8 @@ class Interp:
                     # checked after the body (column objects are replaced on every write)
                     tab = fr.env[name]
                     for cn in mcols[name]:
+                        if cn not in tab.cols:
+                            continue          # a column this table does not have (frame lists the columns of every variant)
                         c = tab.cols[cn]
                         tab.cols[cn] = spec['col_models'][cn](tab.n) if 'col_models' in spec and cn in spec['col_models'] \
                             else _fresh_like(tab.n, cn, c)
